@@ -164,5 +164,15 @@ def check(prop, tier):
 def replay(path):
     rp = json.load(open(path))
     if rp.get("module") == "SelectorDisc":
-        return check(rp["property"], "quick")
+        d = tlc.workdir("selreplay")
+        cp, op = os.path.join(d, "cases.json"), os.path.join(d, "out.json")
+        json.dump([rp["case"]], open(cp, "w"))
+        run_driver("seldisc_driver.py", ["--cases", cp, "--out", op], cwd=d)
+        o = json.load(open(op))[0]
+        f = judge_disc(rp["expected"], o)
+        print("replay: required %s observed %s -> %s" % (json.dumps(rp["expected"]), json.dumps(o)[:600], f or "agrees"))
+        if f:
+            print("VIOLATION property=%s replay=%s" % (rp["property"], path))
+            return 1
+        return 0
     return generic.replay(SEL(), path)
